@@ -268,7 +268,7 @@ class World(object):
             kw["source_only"] = True
         if pr.get("to"):
             kw["target_only"] = True
-        exact = route in ("composite", "env")
+        exact = True       # through any source, store or environment: the same list a scan implies (each stored relationship once)
         objs = self.union.objs
         nav = dict(relationship_type=pr.get("rtype"), source_only=bool(pr.get("so")), target_only=bool(pr.get("to")))
         what = "%s.%s(%s%s) order %s" % (route, "relationships" if pr["p"] == "rels" else "related_to", xid, "".join(", %s=%r" % kv for kv in sorted(kw.items())), order)
